@@ -36,6 +36,18 @@ def main(argv):
     if tier not in ('quick', 'thorough'):
         tier = 'quick'
     from . import core
+    # watchdog: a check must never hang on an unexpected code shape
+    try:
+        import signal
+
+        def _alarm(sig, frm):
+            print('ANALYSIS-ERROR property=%s the analysis did not finish within its time budget' % prop)
+            sys.stdout.flush()
+            os._exit(2)
+        signal.signal(signal.SIGALRM, _alarm)
+        signal.alarm(240 if tier == 'quick' else 1800)
+    except Exception:
+        pass
     try:
         mod = importlib.import_module('sa.rules.' + prop)
     except ImportError as e:
